@@ -271,8 +271,13 @@ PROPS["C20"] = dict(
 )
 
 PROPS["C16"] = dict(
+    claim=dict(
+        text="Machine-checked proof (Coq 8.16): for every subset of the seven actions visited in any order, every per-action middleware map, base path and mode, Resource (a Group around one AddNamed + Route.Use per implemented action) registers exactly one route per implemented action with the documented methods and name and only that action's middleware, under prefix ++ action path, and nothing else (C16_table, through the lexical-scoping theorem of C12); a different visiting order only permutes the table (C16_order_independent); for every clean prefix the paths are the documented /res, /res/create, /res/{id}, /res/{id}/edit (C16_documented_paths); registration succeeds (C16_accepted); non-pointer / non-struct controllers are rejected (C16_guard). That GET /res/create is served by create and never by show is C01's static-before-dynamic rule, and the lookup tie below checks it. Tie to the code: 256 code-generated controller types (one per subset, with and without Uses(); plus controllers with action-named methods of the wrong signature, nesting in groups with middleware) are registered through the real Resource in Go's random map order; Routes()/NamedRoutes() and the handler, per-action middleware and Allow header of method x path probes are compared with the extracted model (fixed order) and the documented table.",
+        note="reflect (MethodByName, type name, Kind) is modelled as inputs. Lookup results for the table are decided by the router model of C01/C06 (extracted and compared on probes), not re-proved here. Trusted: Coq kernel, extraction, driver, harness.",
+        technique="Coq proof: Resource's registrations = documented table for every subset and order (via lexical scoping); extracted model vs implementation differential check over all 128 subsets"),
     n=dict(quick=600, thorough=3000),
     consts=["rest-actions"],
+    theorems=["C16_table", "C16_order_independent", "C16_documented_paths", "C16_accepted", "C16_guard"],
     rule="case = one of the 128 controller types (code-generated, one per subset of the seven actions) with or without Uses() (per-action middleware for Index/Show/"
          "Edit/Delete plus a key that is no action), base path in {/, /api/, '', /v1/admin/, api, /a.b/}, occasionally StrictLastSlash, occasionally a non-pointer or "
          "pointer-to-non-struct controller; probes = GET and a random third of the other methods on 10 paths under and next to the prefix. Registration order is Go's "
@@ -284,8 +289,13 @@ PROPS["C16"] = dict(
 )
 
 PROPS["C15"] = dict(
+    claim=dict(
+        text="Machine-checked proof (Coq 8.16): for every grammar-level pattern without optional parts and every assignment of values that satisfy its variables' regexes, the substituted path matches the pattern with a decomposition having exactly those values (C15_matches); requesting it dispatches to a route - this one, or one C01's rule ranks higher that then also matches (C15_dispatch, from C01's completeness); the reported parameters are a valid decomposition (C15_params) and are exactly the substituted values when every variable is slash-free and delimited by the end or a literal beginning with '/' (C15_values_back, C15_decomposition_unique); GetRoute returns the most recent registration under a name and other names are untouched (C15_get_route, C15_other_names_kept). K3 (trailing white space trimmed by lookup normalisation) and K4 (a value containing another placeholder's text is replaced again) are refuted witnesses and known findings. Tie to the code: named routes x admissible and special values (spaces, non-ASCII, %, %XX, ?, #, &, ;, .., braces) x the three argument styles; the URL built by BuildURL/ToURL is compared with the extracted string-level model of Build, its Path is fed to Router.Match and its String() through http.NewRequest into ServeHTTP; the judge checks substitution, query arguments and route/values on the grammar-level AST; naming-operation sequences are checked against GetRoute.",
+        note="Side conditions (stated in the theorems): values contain no brace and the substituted path is already normalised. net/url escaping/parsing is not modelled (validated by the tie: ServeHTTP on the parsed URL vs Match on u.Path). The string-level Build (placeholder replacement in Go-map order) is tied to the grammar-level substitution by the correspondence, not by proof. Trusted: Coq kernel, extraction, driver, harness.",
+        technique="Coq proof: substitution of admissible values lies in the pattern's language; uniqueness of decomposition for segment-shaped patterns; differential check with round trip through the router"),
     n=dict(quick=3000, thorough=40000),
     consts=["global-vars", "any-match"],
+    theorems=["C15_matches", "C15_dispatch", "C15_values_back", "C15_params", "C15_get_route"],
     rule="case = (a) table of 1..5 named routes without optional parts (static and dynamic, 12 regex kinds, global variables), one route chosen, values drawn from "
          "each variable's accepted set (for unconstrained variables also spaces, non-ASCII, %, ?, #, &, ;, .., trailing space, brace text, trailing slash; 1/12 "
          "rejected values), 0..2 extra query arguments, argument style M map / key-value pairs / BuildRequestURL builder; the built URL's Path is fed to Router.Match and "
